@@ -56,7 +56,7 @@ def with_extra(ctx, tag, make_specs, kw=None):
     return ctx._pool
 
 
-def scripted_controller_runs(ctx, tag, n):
+def scripted_controller_runs(ctx, tag, n, want=("ctl",)):
     """Runs in which every scalar improvement value is replaced by a scripted one (oracle scripting): the loop controller and the mesh
     rule are driven through arbitrary sequences of search/poll outcomes and stall flags.  Only the controller-level checks (C03, C13) read them."""
     rng = ctx.sub_rng(tag)
@@ -70,7 +70,7 @@ def scripted_controller_runs(ctx, tag, n):
         if rng.random() < 0.3:
             sp["options"]["tol_mesh"] = rng.choice([1e-2, 1e-3])
         w = rng.choice([[3, 2, 3, 3], [6, 1, 2, 1], [1, 1, 6, 4], [2, 4, 4, 1]])
-        jobs.append((sp, {"ei_script": {"seed": rng.randint(0, 10 ** 6), "weights": w}, "want": ("ctl",)}))
+        jobs.append((sp, {"ei_script": {"seed": rng.randint(0, 10 ** 6), "weights": w}, "want": tuple(want)}))
     tr = tracer.cached(tag, ctx.seed, ctx.tier, lambda: jobs)
     bad = [t for t in tr if "tracer_error" in t]
     if bad:
@@ -171,15 +171,19 @@ def ctl_extract(t):
     """Per-iteration oracle outcomes and observed states of one trace. Returns None if the run did not reach the loop."""
     ev = t["events"]
     iters, cur = [], None
+    hist = {"fval": {}, "fsd": {}}
     for k, e in ev:
         if k == "ITER":
             cur = {"start": e, "srch": None, "poll": None, "ei_main": []}
             iters.append(cur)
+        elif k == "HIST" and e["key"] in hist:
+            hist[e["key"]][e["it"]] = e["val"]
         elif cur is not None:
             if k == "SRCH":
                 cur["srch"] = e
             elif k == "POLL":
                 cur["poll"] = e
+                cur["hist_at_poll"] = {kk: dict(vv) for kk, vv in hist.items()}
             elif k == "EI":
                 cur["ei_main"].append(e)
     if t["error"] is not None and iters:
@@ -221,6 +225,21 @@ def ctl_extract(t):
             ob["poll_evals"] = n
             ob["poll_post"] = p["post"]
             ob["n_ei"] = len(zs)
+            eis = [e for e in p["ei"] if e["phase"] == "poll"]
+            ob["ei_inputs_bad"] = None
+            if not t.get("ei_script"):
+                for e in eis[:n]:
+                    if e["f_base"] != p["pre"]["fval"] or (e["s_base"] is not None and e["s_base"] != p["pre"]["fsd"]):
+                        ob["ei_inputs_bad"] = ("improvement_inputs", f"poll improvement computed against ({e['f_base']}, {e['s_base']}) but the incumbent estimate at poll start is ({p['pre']['fval']}, {p['pre']['fsd']})")
+                        break
+                if len(eis) > n and ob["ei_inputs_bad"] is None:
+                    a = eis[n]
+                    hb = it.get("hist_at_poll", {"fval": {}, "fsd": {}})
+                    idx = p["pre"]["it"] - int(h["accelerate_mesh_steps"])
+                    want = (hb["fval"].get(idx), hb["fsd"].get(idx), p["post"]["fval"], p["post"]["fsd"])
+                    got = (a["f_base"], a["s_base"], a["f_new"], a["s_new"])
+                    if want[0] is not None and got != want:
+                        ob["ei_inputs_bad"] = ("stall_inputs", f"stalling judged on (f_base, s_base, f_new, s_new)={got}; the estimates recorded {int(h['accelerate_mesh_steps'])} iterations ago and the current incumbent estimate are {want}")
         # termination stall test: the scalar _eval_improvement_ call made in the main loop body
         sc = [e for e in it["ei_main"] if not e["vec"]]
         if sc:
@@ -361,6 +380,9 @@ def _c13_predicates(rep, t, x, case, tag, completed):
     for k, ob in enumerate(x["obs"]):
         s = ob["start"]
         ms, sms = s["ms"], s["sms"]
+        if ob.get("ei_inputs_bad"):
+            rep.violation(ob["ei_inputs_bad"][0], "bads.py:_poll_step_", f"iteration {k}: {ob['ei_inputs_bad'][1]}; {tag}", case)
+            return
         if ms != float(mult) ** s["msi"] or ms > 1.0 or math.log2(ms) != int(math.log2(ms)):
             rep.violation("power_of_two_le_one", "bads.py:optimize", f"iteration {k}: mesh_size={ms} (msi={s['msi']}) is not a power of two <= 1; {tag}", case)
             return
@@ -905,6 +927,9 @@ def _c19_predicates(rep, t, x, case, tag):
         x0 = res["x0"] if isinstance(res["x0"], list) else [res["x0"]]
         if x0 != t["hdr"]["x0"] or res["random_seed"] != sp["seed"] or res["func_count"] != fin["target_calls"] or res["mesh_size"] != fin["mesh_size"]:
             rep.violation("result_fields", "optimize_result.py", f"x0/random_seed/func_count/mesh_size disagree with the problem and the final state; {tag}", case)
+        want_tt = "deterministic" if fin["unc"] == 0 else ("stochastic (specified noise)" if sp["mode"] == "he" else "stochastic")
+        if res["target_type"] != want_tt:
+            rep.violation("result_target_type", "optimize_result.py", f"target_type={res['target_type']!r} but the run treated the target as {want_tt!r} (final uncertainty level {fin['unc']}); {tag}", case)
         want_pt = "non-box constraints" if sp["cons"] else ("unconstrained" if sp["geom"] == "unbounded" else "bound constraints")
         if res["problem_type"] != want_pt:
             rep.violation("result_fields", "optimize_result.py", f"problem_type={res['problem_type']} expected {want_pt}; {tag}", case)
